@@ -179,6 +179,7 @@ func runC10(c *Ctx) (int, error) {
 	// (b) token strings
 	var tcases [][]string
 	var ecases [][]string
+	var ccases [][]string
 	gt := &tlc.Run{SpecDir: specDir, Scratch: filepath.Join(c.Work, "gentokens"), Module: "Gen_Tokens", Workers: 16, Timeout: 25 * time.Minute,
 		Cfg: fmt.Sprintf("CONSTANTS\n  Tier = %q\n  Seed = %d\nINIT Init\nNEXT Next\nINVARIANTS Export\nCHECK_DEADLOCK FALSE\n", c.Tier, c.Seed),
 		OnLine: func(tag, js string) {
@@ -189,6 +190,16 @@ func runC10(c *Ctx) (int, error) {
 				if json.Unmarshal([]byte(js), &t) == nil {
 					mu.Lock()
 					ecases = append(ecases, t.Expr)
+					mu.Unlock()
+				}
+			}
+			if tag == "CCASE" {
+				var t struct {
+					Chars []string `json:"chars"`
+				}
+				if json.Unmarshal([]byte(js), &t) == nil {
+					mu.Lock()
+					ccases = append(ccases, t.Chars)
 					mu.Unlock()
 				}
 			}
@@ -358,6 +369,26 @@ func runC10(c *Ctx) (int, error) {
 			appendTest("[flags]\nenum E"+base+" {\n\tA = 1;\n\tB = "+strings.Join(ex, " ")+";\n}\n", false, "expr")
 		}
 	}
+	// (d') character strings without separators, alone and at the places where the grammar expects something else
+	sort.Slice(ccases, func(i, j int) bool { return strings.Join(ccases[i], "") < strings.Join(ccases[j], "") })
+	for _, cs := range ccases {
+		if hung() {
+			break
+		}
+		var b strings.Builder
+		for _, ch := range cs {
+			if ch == "@BYTE255" {
+				b.WriteByte(0xFF)
+			} else {
+				b.WriteString(ch)
+			}
+		}
+		s := b.String()
+		for _, text := range []string{s, "struct A {\n\tint32 a;\n}\n" + s, "struct A {\n\tint32 a;\n\t" + s + "\n}\n", "enum E {\n\tA = " + s + ";\n}\n",
+			"const int32 c = " + s + ";\n", "/* c */" + s, "message M {\n\t1 -> int32 a;\n\t" + s + " -> int32 b;\n}\n", "[opcode(" + s + ")]\nstruct A {\n\tint32 a;\n}\n"} {
+			appendTest(text, true, "chars")
+		}
+	}
 	// (e) every token-prefix of valid schemas (a definition cut short must not swallow what follows)
 	nprefix := 0
 	for ci, pc := range pcases {
@@ -433,7 +464,7 @@ func runC10(c *Ctx) (int, error) {
 	cov := Coverage{"states": plr.Distinct + gtr.Distinct + gpr.Distinct + st, "transitions": plr.Generated + gtr.Generated + gpr.Generated + tr,
 		"traces_validated_against_impl": total["ok"] + total["known"], "events_total": len(events), "evaluations": len(events),
 		"distinct_nontrivial": len(icases) + len(tcases), "samples": samples,
-		"rule":             fmt.Sprintf("(a) EVERY item sequence up to length %d over {opcode, flags, readonly, line/block comment, blank line, import, 5 definition kinds, stray byte, unterminated comment, unterminated string} with the verdict of ParserLoop.tla (model-checked: NoLeak, AttachExactlyOnce, NoSilentDrop, Terminates); (b) EVERY string of up to 3 lexemes (4 in thorough, sampled 1/23 by seed) over a 51-lexeme alphabet with every token kind and the lexical-error lexemes, judged by the property's append test; (c) valid schemas x every reader failure offset x {custom error, ErrUnexpectedEOF} x 3 reader styles; (d) EVERY [flags] member expression of up to 4 lexemes over {1, -1, 64, 0x10, A, <<, >>, |, &, (, )} in an unsigned and two signed enums; (e) EVERY token-prefix of the valid schemas of the C11 universe, judged by the append test", maxLen),
+		"rule":             fmt.Sprintf("(a) EVERY item sequence up to length %d over {opcode, flags, readonly, line/block comment, blank line, import, 5 definition kinds, stray byte, unterminated comment, unterminated string} with the verdict of ParserLoop.tla (model-checked: NoLeak, AttachExactlyOnce, NoSilentDrop, Terminates); (b') EVERY string of up to 3 characters (4 in thorough) and a seed-rotating 1/8 (1/40) of the next length over 22 characters (letters, digits, x, e, every byte that starts a multi-byte token, quote, backslash, each white space, ';', '[', '_', byte 255), written without separators, alone and in 7 grammatical positions (after a definition, inside a struct body, as enum value, as const value, directly after a block comment, as message index, as opcode); (b) EVERY string of up to 3 lexemes (4 in thorough, sampled 1/23 by seed) over a 51-lexeme alphabet with every token kind and the lexical-error lexemes, judged by the property's append test; (c) valid schemas x every reader failure offset x {custom error, ErrUnexpectedEOF} x 3 reader styles; (d) EVERY [flags] member expression of up to 4 lexemes over {1, -1, 64, 0x10, A, <<, >>, |, &, (, )} in an unsigned and two signed enums; (e) EVERY token-prefix of the valid schemas of the C11 universe, judged by the append test", maxLen),
 		"flag_expressions": len(ecases) * 3, "token_prefixes_of_valid_schemas": nprefix,
 		"item_sequences": len(icases), "item_sequences_skipped_comment_reclosed": skippedOpen, "token_strings": len(tcases), "reader_fault_runs": nfault, "timeouts": timeouts,
 		"parserloop_states": plr.Distinct, "open_deviations": devs, "exhaustive": false, "item_sequences_exhaustive_up_to": maxLen, "token_strings_exhaustive_up_to": 3}
